@@ -16,10 +16,10 @@ import (
 func init() {
 	Register(&Rule{
 		ID: "C34", Section: "5 C34",
-		Technique: "upper-bound value-flow through clamp phis and branch guards (take amount <= available, maxFrameSize, len(p)), feasible-path enumeration of writeScheduler.takeFrom, census of queue mutators / channel users / goroutine starts, guard analysis of the single-writer flag and of the stream-state tests",
+		Technique: "feasible-path enumeration of writeScheduler.takeFrom and startFrameWrite with private helpers spliced in, upper bounds proved from the comparisons taken on each path (take amount <= available, maxFrameSize, len(p)), census of queue mutators / channel users / goroutine starts, guard analysis of the single-writer flag and of the stream-state tests",
 		Meta: core.Meta{
 			Level:       "other",
-			Explanation: "Decides: (a) in writeScheduler.takeFrom every flow.take is on the send window of the head frame's own stream and its amount is provably (from `if x < y { y = x }` clamps and branch guards) <= available() of that window, <= ws.maxFrameSize and <= len(p); on every returning path a DATA frame with payload leaves only after exactly one take, a split frame carries p[:n] for the n taken, keeps p[n:] at the head of the queue (no shift), copies the stream and stream id and never sets END_STREAM, a whole frame is shifted off the queue, frames without payload cost nothing; (b) FIFO per stream: writeQueue.s is written only by push (append at the tail), shift (returns s[0], moves s[1:] down) and forgetStream (drop all); writeScheduler.add queues on the queue of wm.stream.id; writeScheduler.take returns only what zero.shift or takeFrom produced; (c) single writer: writeFramer.writeFrame is invoked only in serverConn.writeFrames, which is started by exactly one `go` statement in serve and fed only by startFrameWrite through writeFrameCh; startFrameWrite sends only under !writingFrame and after setting it, writingFrame is cleared only by wroteFrame, every startFrameWrite call in scheduleFrameWrite is under !writingFrame, and the frame taken from the scheduler is the frame started; Framer.WriteData is reached only from writeData.writeFrame; (d) nothing after end/reset: startFrameWrite reaches the send only with no stream or a stream whose state is neither HalfClosedLocal nor Closed; closeStream always forgets the stream's queue; wroteFrame, after a frame for which endsStream() holds, resets an Open stream and closes a HalfClosedRemote one; endsStream reports the endStream flag of DATA/HEADERS writes; (e) peer limits: ws.maxFrameSize is written only from a valid SETTINGS_MAX_FRAME_SIZE (and the 16384 default), the send windows are credited only by WINDOW_UPDATE (right level, the frame's Increment, overflow => FLOW_CONTROL_ERROR), by the SETTINGS_INITIAL_WINDOW_SIZE delta (new - old, every stream) and at creation (peer's initial window / 65535), and each stream's send window is linked to the connection's; (f) the arithmetic shape of flow.available/take/add. Not covered: scheduling interleavings and priorities; which stream is picked; that the handler stops writing after END_STREAM beyond the state tests above; HEADERS/CONTINUATION fragmentation against the peer's frame size (write.go uses the protocol minimum 16384).",
+			Explanation: "Decides: (a) in writeScheduler.takeFrom every flow.take is on the send window of the head frame's own stream and its amount is provably (from `if x < y { y = x }` clamps and branch guards) <= available() of that window, <= ws.maxFrameSize and <= len(p); on every returning path a DATA frame with payload leaves only after exactly one take, a split frame carries p[:n] for the n taken, keeps p[n:] at the head of the queue (no shift), copies the stream and stream id and never sets END_STREAM, a whole frame is shifted off the queue, frames without payload cost nothing; (b) FIFO per stream: writeQueue.s is written only by push (append at the tail), shift (returns s[0], moves s[1:] down) and forgetStream (drop all); writeScheduler.add queues on the queue of wm.stream.id; writeScheduler.take returns only what zero.shift or takeFrom produced; (c) single writer: writeFramer.writeFrame is invoked only in serverConn.writeFrames, which is started by exactly one `go` statement in serve and fed only by startFrameWrite through writeFrameCh; startFrameWrite sends only under !writingFrame and after setting it, writingFrame is cleared only by wroteFrame, every startFrameWrite call in scheduleFrameWrite is under !writingFrame, and the frame taken from the scheduler is the frame started; Framer.WriteData is reached only from writeData.writeFrame; (d) nothing after end/reset: startFrameWrite reaches the send only with no stream or a stream whose state is neither HalfClosedLocal nor Closed; closeStream always forgets the stream's queue; wroteFrame, after a frame for which endsStream() holds, resets an Open stream and closes a HalfClosedRemote one; endsStream reports the endStream flag of DATA/HEADERS writes; (e) peer limits: ws.maxFrameSize is written only from a valid SETTINGS_MAX_FRAME_SIZE (and the 16384 default), the send windows are credited only by WINDOW_UPDATE (right level, the frame's Increment, overflow => FLOW_CONTROL_ERROR), by the SETTINGS_INITIAL_WINDOW_SIZE delta (new - old, every stream) and at creation (peer's initial window / 65535), and each stream's send window is linked to the connection's; (f) the arithmetic shape of flow.available/take/add. How: takeFrom and startFrameWrite are judged over their feasible paths with their private helpers spliced in at the call sites, values resolved along each path (parameter -> argument, phi -> edge taken, result -> value returned) and compared by structure, bounds proved from the comparisons taken on the path; census rules attribute a site in a new unexported helper (not in the reviewed snapshot of bfe_http2, static calls only, not started as a goroutine) to the reviewed functions that call it; so helper extraction/inlining, early returns, switch vs if, named booleans, renamed locals, logging, counters and defensive panics do not change the verdict. Not covered by this technique: a take inside a loop or an anonymous function of takeFrom (reported, not passed); helpers shared by several reviewed functions. Not covered: scheduling interleavings and priorities; which stream is picked; that the handler stops writing after END_STREAM beyond the state tests above; HEADERS/CONTINUATION fragmentation against the peer's frame size (write.go uses the protocol minimum 16384).",
 			RuleText:    "obligations = each take in takeFrom x each bound, each path class of takeFrom, each writer of writeQueue.s / maxFrameSize / writingFrame, each user of writeFrameCh, each invoke of writeFrame, each go statement of writeFrames, each startFrameWrite call, each credit of a send window, the state tests of startFrameWrite/wroteFrame/closeStream, the flow methods",
 			Assumptions: []string{"Setting.Valid() bounds SETTINGS_MAX_FRAME_SIZE to 2^14..2^24-1 so that int32(ws.maxFrameSize) is positive (C32 parses SETTINGS)", "serveG.Check() enforces at run time that the serve-goroutine functions run on one goroutine (C35 decides the goroutine affinity)"},
 		},
@@ -43,6 +43,12 @@ func init() {
 			{Name: "silent-shift-reslice", Silent: true, File: "bfe_http2/writesched.go", Old: "	copy(q.s, q.s[1:])\n	q.s[len(q.s)-1] = frameWriteMsg{}\n	q.s = q.s[:len(q.s)-1]\n", New: "	q.s[0] = frameWriteMsg{}\n	q.s = q.s[1:]\n"},
 			{Name: "silent-clamp-respelled", Silent: true, File: "bfe_http2/writesched.go", Old: "		if int32(ws.maxFrameSize) < allowed {\n			allowed = int32(ws.maxFrameSize)\n		}\n		// TODO: further restrict", New: "		if max := int32(ws.maxFrameSize); allowed > max {\n			allowed = max\n		}\n		// TODO: further restrict"},
 			{Name: "silent-log-in-start", Silent: true, File: "bfe_http2/server.go", Old: "	sc.writingFrame = true\n	sc.needsFrameFlush = true\n", New: "	sc.needsFrameFlush = true\n	log.Logger.Debug(\"http2: start write %v\", wm)\n	sc.writingFrame = true\n"},
+			// helper extraction (modelled on C34-N1, other sites): the unsplit debit and the hand-over to the writer move into new private methods
+			{Name: "silent-extract-whole-debit", Silent: true, File: "bfe_http2/writesched.go", Old: "\t\twm.stream.flow.take(int32(len(wd.p)))\n\t}\n\n\tq.shift()\n\tif q.empty() {\n\t\tws.putEmptyQueue(q)\n\t\tdelete(ws.sq, id)\n\t}\n\treturn wm, true\n}\n\n", New: "\t\tws.debitWhole(wm.stream, wd)\n\t}\n\n\tq.shift()\n\tif q.empty() {\n\t\tws.putEmptyQueue(q)\n\t\tdelete(ws.sq, id)\n\t}\n\treturn wm, true\n}\n\n// debitWhole charges a DATA frame that is sent unsplit to its stream's send window.\nfunc (ws *writeScheduler) debitWhole(strm *stream, data *writeData) {\n\tstrm.flow.take(int32(len(data.p)))\n}\n\n"},
+			{Name: "silent-extract-hand-over", Silent: true, File: "bfe_http2/server.go", Old: "\tsc.writingFrame = true\n\tsc.needsFrameFlush = true\n\n\t// Note: for avoid blocking serve goroutine, we let write goroutine to write frame\n\tsc.writeFrameCh <- wm\n}\n", New: "\tsc.handToWriter(wm)\n}\n\n// handToWriter marks the connection busy and passes the frame to the writer goroutine.\nfunc (sc *serverConn) handToWriter(msg frameWriteMsg) {\n\tsc.writingFrame = true\n\tsc.needsFrameFlush = true\n\tsc.writeFrameCh <- msg\n}\n"},
+			// named booleans / inverted tests (modelled on the C33-N4 and C34-N2 classes)
+			{Name: "silent-named-payload-test", Silent: true, File: "bfe_http2/writesched.go", Old: "\tif wd, ok := wm.write.(*writeData); ok && len(wd.p) > 0 {\n", New: "\twd, isData := wm.write.(*writeData)\n\thasPayload := isData && len(wd.p) > 0\n\tif hasPayload {\n"},
+			{Name: "silent-inverted-fit-test", Silent: true, File: "bfe_http2/writesched.go", Old: "\t\tif len(wd.p) > int(allowed) {\n", New: "\t\tfits := len(wd.p) <= int(allowed)\n\t\tif !fits {\n"},
 		},
 	})
 }
@@ -71,8 +77,15 @@ func runC34(c *core.Ctx) {
 	c34SingleWriter(c)
 	c34StreamState(c)
 	c34PeerLimits(c, fl)
+	h2aDropCache(c)
 }
 
+// c34TakeFrom judges writeScheduler.takeFrom together with its private helpers,
+// over the feasible paths of the function with the helpers spliced in and over
+// values resolved along each path (see x_h2a_r.go): the rule sees the same
+// instruction sequences whether the quota computation or the frame split is
+// written inline or extracted, whatever the locals are called and however the
+// clamps are spelled.
 func c34TakeFrom(c *core.Ctx, fl *h2aFlows) {
 	fn := h2aFn(c, "writeScheduler.takeFrom")
 	mfs := h2aField(c, "writeScheduler.maxFrameSize")
@@ -84,115 +97,182 @@ func c34TakeFrom(c *core.Ctx, fl *h2aFlows) {
 	if fn == nil || mfs == nil || wdP == nil || wdSID == nil || wdEnd == nil || fwStream == nil || fwWrite == nil || len(fn.Params) != 3 {
 		return
 	}
-	ws, q := fn.Params[0], fn.Params[2]
-	// the head of the queue
-	var head *ssa.Call
-	core.Instrs(fn, func(in ssa.Instruction) {
-		if call, ok := in.(*ssa.Call); ok && h2aCallOf(in, "writeQueue.head") != nil && call.Call.Args[0] == ssa.Value(q) && head == nil {
-			head = call
-		}
-	})
-	c.Check("data-take", "takeFrom:inspects-head", fn.Pos(), head != nil, "takeFrom does not start from q.head(): the frame that is debited and the frame that is sent cannot be related")
-	if head == nil {
-		return
+	const wsIdx, qIdx = 0, 2
+	paths, complete := h2aPathsOf(c, fn, 20000)
+
+	// x is a path with the head of the queue: the first q.head() executed
+	type pctx struct {
+		p       *h2aIPath
+		head    h2aCV
+		hasHead bool
 	}
-	// isHeadField: v is a load of field fld of the local that holds q.head()
-	isHeadField := func(v ssa.Value, fld *types.Var) bool {
-		base, ok := h2aFieldLoad(v, fld)
-		if !ok {
-			return false
-		}
-		if base == ssa.Value(head) {
-			return true
-		}
-		al, isAl := base.(*ssa.Alloc)
-		if !isAl || al.Referrers() == nil {
-			return false
-		}
-		// the first store into the local must be the head() result and must dominate the load
-		for _, r := range *al.Referrers() {
-			if st, ok := r.(*ssa.Store); ok && st.Addr == ssa.Value(al) && st.Val == ssa.Value(head) {
-				if ld, isI := core.StripConv(v).(ssa.Instruction); isI {
-					// no other store to the local can intervene between the head() store and the load
-					if !core.Dominates(st, ld) {
-						return false
-					}
-					for _, r2 := range *al.Referrers() {
-						s2, ok := r2.(*ssa.Store)
-						if !ok || s2 == st || s2.Addr != ssa.Value(al) {
-							continue
-						}
-						isS2 := func(x ssa.Instruction) bool { return x == ssa.Instruction(s2) }
-						isLd := func(x ssa.Instruction) bool { return x == ld }
-						if core.ReachAvoiding(fn, st, isLd, isS2) != nil && core.ReachAvoiding(fn, s2, nil, isLd) != nil {
-							return false
-						}
-					}
-					return true
+	ctxOf := func(p *h2aIPath) *pctx {
+		x := &pctx{p: p}
+		for _, e := range p.evs {
+			if cc := h2aCallOf(e.in, "writeQueue.head"); cc != nil && len(cc.Args) == 1 && p.isRootParam(h2aCV{cc.Args[0], e.fr}, qIdx) {
+				if call, isCall := e.in.(*ssa.Call); isCall {
+					x.head, x.hasHead = h2aCV{call, e.fr}, true
+					break
 				}
 			}
 		}
-		return false
+		return x
 	}
-	// the *writeData of the head
-	isHeadData := func(v ssa.Value) bool {
-		e, ok := core.StripConv(v).(*ssa.Extract)
-		if !ok || e.Index != 0 {
+	isHead := func(x *pctx, v h2aCV) bool {
+		v = x.p.valueOf(v)
+		return x.hasHead && v.v == x.head.v && v.fr == x.head.fr
+	}
+	// isHeadField: v is a load of field fld of the head frame (the q.head() result
+	// itself or a local / parameter that holds it when the field is read)
+	isHeadField := func(x *pctx, v h2aCV, fld *types.Var) bool {
+		cv := x.p.strip(v)
+		base, ok := x.p.fieldLoad(cv, fld)
+		if !ok || !x.hasHead {
 			return false
 		}
-		ta, ok := e.Tuple.(*ssa.TypeAssert)
-		return ok && isHeadField(ta.X, fwWrite)
+		if isHead(x, base) {
+			return true
+		}
+		al, isAl := base.v.(*ssa.Alloc)
+		if !isAl {
+			return false
+		}
+		at := len(x.p.evs)
+		if in, isI := cv.v.(ssa.Instruction); isI {
+			if i := x.p.evIndex(in, cv.fr); i >= 0 {
+				at = i
+			}
+		}
+		return x.p.holds(al, base.fr, at, x.head)
 	}
-	isHeadP := func(v ssa.Value) bool { // wd.p
-		base, ok := h2aFieldLoad(v, wdP)
-		return ok && isHeadData(base)
+	// the *writeData of the head
+	isHeadData := func(x *pctx, v h2aCV) bool {
+		cv := x.p.strip(v)
+		var ta *ssa.TypeAssert
+		switch y := cv.v.(type) {
+		case *ssa.Extract:
+			if y.Index != 0 {
+				return false
+			}
+			ta, _ = y.Tuple.(*ssa.TypeAssert)
+		case *ssa.TypeAssert:
+			ta = y
+		}
+		return ta != nil && core.TypeStr(ta.AssertedType) == "*"+h2aPkg+".writeData" && isHeadField(x, h2aCV{ta.X, cv.fr}, fwWrite)
 	}
+	// isHeadP: v is wd.p of the head's writeData as it was queued (read before any
+	// store to that field on the path)
+	isHeadP := func(x *pctx, v h2aCV) bool {
+		cv := x.p.strip(v)
+		base, ok := x.p.fieldLoad(cv, wdP)
+		if !ok || !isHeadData(x, base) {
+			return false
+		}
+		at := len(x.p.evs)
+		if in, isI := cv.v.(ssa.Instruction); isI {
+			if i := x.p.evIndex(in, cv.fr); i >= 0 {
+				at = i
+			}
+		}
+		for j := 0; j < at; j++ {
+			if st, isSt := x.p.evs[j].in.(*ssa.Store); isSt {
+				if b, isP := x.p.fieldAddr(h2aCV{st.Addr, x.p.evs[j].fr}, wdP); isP && isHeadData(x, b) {
+					return false
+				}
+			}
+		}
+		return true
+	}
+
+	// static sites of the region
 	type takeSite struct {
-		in     ssa.Instruction
-		recv   ssa.Value
-		amount ssa.Value
-		whole  bool
+		in                       ssa.Instruction
+		key                      string
+		reached                  bool
+		own, leWin, leMax, lePay bool
+		recvS, amountS           string
 	}
-	var takes []takeSite
-	core.Instrs(fn, func(in ssa.Instruction) {
+	var takes []*takeSite
+	siteOf := map[ssa.Instruction]*takeSite{}
+	hasHeadCall := false
+	h2aRegionInstrs(c, fn, func(g *ssa.Function, in ssa.Instruction) {
 		if cc := h2aCallOf(in, "flow.take"); cc != nil && len(cc.Args) == 2 {
-			d, isLen := h2aLenOf(cc.Args[1])
-			takes = append(takes, takeSite{in, cc.Args[0], cc.Args[1], isLen && isHeadP(d)})
+			t := &takeSite{in: in, key: fmt.Sprintf("takeFrom:take#%d", len(takes)+1), own: true, leWin: true, leMax: true, lePay: true, recvS: core.Render(cc.Args[0]), amountS: core.Render(cc.Args[1])}
+			takes = append(takes, t)
+			siteOf[in] = t
+		}
+		if h2aCallOf(in, "writeQueue.head") != nil {
+			hasHeadCall = true
 		}
 	})
-	for i, t := range takes {
-		key := fmt.Sprintf("takeFrom:take#%d", i+1)
-		kind, base := fl.kind(t.recv)
-		c.Check("data-take", key+":own-stream-window", t.in.Pos(), kind == "stream-out" && isHeadField(base, fwStream),
-			"flow.take debits "+core.Render(t.recv)+"; it must debit the send window (stream.flow, which also debits the connection's) of the stream of the frame at the head of the queue")
-		gs := core.GuardsAt(t.in.Block())
-		isAvail := func(v ssa.Value) bool {
-			call, ok := v.(*ssa.Call)
-			return ok && core.CallIs(&call.Call, h2aPkg+".flow.available") && h2aSame(call.Call.Args[0], t.recv)
+	anyHead := false
+	for _, p := range paths {
+		if ctxOf(p).hasHead {
+			anyHead = true
 		}
-		isMax := func(v ssa.Value) bool {
-			b, ok := h2aFieldLoad(v, mfs)
-			return ok && b == ssa.Value(ws)
+	}
+	c.Check("data-take", "takeFrom:inspects-head", fn.Pos(), hasHeadCall && anyHead, "takeFrom does not start from q.head(): the frame that is debited and the frame that is sent cannot be related")
+	if !(hasHeadCall && anyHead) {
+		return
+	}
+	isWhole := func(x *pctx, amount h2aCV) bool {
+		d, isLen := x.p.lenOf(amount)
+		return isLen && isHeadP(x, d)
+	}
+	for _, p := range paths {
+		x := ctxOf(p)
+		for i, e := range p.evs {
+			t := siteOf[e.in]
+			if t == nil {
+				continue
+			}
+			t.reached = true
+			cc := e.in.(ssa.CallInstruction).Common()
+			recv, amount := p.strip(h2aCV{cc.Args[0], e.fr}), h2aCV{cc.Args[1], e.fr}
+			kind, base := fl.kind(recv.v)
+			if !(kind == "stream-out" && isHeadField(x, h2aCV{base, recv.fr}, fwStream)) {
+				t.own = false
+			}
+			isAvail := func(v h2aCV) bool {
+				call, cfr := p.callOf(v, "flow.available")
+				return call != nil && p.same(h2aCV{call.Call.Args[0], cfr}, recv)
+			}
+			isMax := func(v h2aCV) bool {
+				b, ok := p.fieldLoad(v, mfs)
+				return ok && p.isRootParam(b, wsIdx)
+			}
+			isLenP := func(v h2aCV) bool {
+				d, ok := p.lenOf(v)
+				return ok && isHeadP(x, d)
+			}
+			if !p.leq(amount, isAvail, i) {
+				t.leWin = false
+			}
+			if !p.leq(amount, isMax, i) {
+				t.leMax = false
+			}
+			if !p.leq(amount, isLenP, i) {
+				t.lePay = false
+			}
 		}
-		isLenP := func(v ssa.Value) bool {
-			d, ok := h2aLenOf(v)
-			return ok && isHeadP(d)
+	}
+	for _, t := range takes {
+		if !t.reached {
+			c.Check("data-take", t.key+":own-stream-window", t.in.Pos(), false, "flow.take lies on no enumerated path of takeFrom (inside a loop or an anonymous function): the rule cannot relate it to the frame that is sent")
+			continue
 		}
-		c.Check("data-take", key+":le-window", t.in.Pos(), h2aLeq(t.amount, isAvail, gs, 0, map[ssa.Value]bool{}),
-			"cannot prove that the octets debited ("+core.Render(t.amount)+") are <= available() of the stream's send window (minimum of stream and connection window): a DATA frame could exceed the peer's window")
-		c.Check("data-take", key+":le-max-frame", t.in.Pos(), h2aLeq(t.amount, isMax, gs, 0, map[ssa.Value]bool{}),
-			"cannot prove that the octets debited ("+core.Render(t.amount)+") are <= ws.maxFrameSize (the peer's SETTINGS_MAX_FRAME_SIZE): a DATA frame could be larger than the peer accepts")
-		c.Check("data-take", key+":le-payload", t.in.Pos(), h2aLeq(t.amount, isLenP, gs, 0, map[ssa.Value]bool{}),
-			"cannot prove that the octets debited ("+core.Render(t.amount)+") are <= len(p) of the frame at the head of the queue")
+		c.Check("data-take", t.key+":own-stream-window", t.in.Pos(), t.own,
+			"flow.take debits "+t.recvS+"; it must debit the send window (stream.flow, which also debits the connection's) of the stream of the frame at the head of the queue")
+		c.Check("data-take", t.key+":le-window", t.in.Pos(), t.leWin,
+			"cannot prove that the octets debited ("+t.amountS+") are <= available() of the stream's send window (minimum of stream and connection window): a DATA frame could exceed the peer's window")
+		c.Check("data-take", t.key+":le-max-frame", t.in.Pos(), t.leMax,
+			"cannot prove that the octets debited ("+t.amountS+") are <= ws.maxFrameSize (the peer's SETTINGS_MAX_FRAME_SIZE): a DATA frame could be larger than the peer accepts")
+		c.Check("data-take", t.key+":le-payload", t.in.Pos(), t.lePay,
+			"cannot prove that the octets debited ("+t.amountS+") are <= len(p) of the frame at the head of the queue")
 	}
 	c.Min("data-take", 9)
 
 	// path classes
-	isTake := h2aIsCall("flow.take")
-	isShift := func(in ssa.Instruction) bool {
-		cc := h2aCallOf(in, "writeQueue.shift")
-		return cc != nil && cc.Args[0] == ssa.Value(q)
-	}
 	type agg struct {
 		ok     bool
 		detail string
@@ -210,108 +290,92 @@ func c34TakeFrom(c *core.Ctx, fl *h2aFlows) {
 			a.ok, a.detail = false, detail
 		}
 	}
-	npaths := 0
-	complete := core.EnumPaths(fn, 1, 20000, func(p *core.Path) {
-		npaths++
-		ret, isRet := p.Last().(*ssa.Return)
-		if !isRet {
-			return
+	for _, p := range paths {
+		if !p.Returned() {
+			continue
 		}
-		rv := core.RetVals(ret)
+		x := ctxOf(p)
+		rv := p.RootResults()
 		if len(rv) != 2 {
 			note("shape", false, "takeFrom no longer returns (frameWriteMsg, bool)")
-			return
+			continue
 		}
-		sig := h2aPathSig(p)
-		var onPath []takeSite
+		sig := h2aFactSig(p)
+		type onp struct {
+			t      *takeSite
+			amount h2aCV
+			at     int
+		}
+		var onPath []onp
 		nShift := 0
-		p.Instrs(func(in ssa.Instruction) bool {
-			if isTake(in) {
-				for _, t := range takes {
-					if t.in == in {
-						onPath = append(onPath, t)
-					}
-				}
+		for i, e := range p.evs {
+			if t := siteOf[e.in]; t != nil {
+				onPath = append(onPath, onp{t, p.strip(h2aCV{e.in.(ssa.CallInstruction).Common().Args[1], e.fr}), i})
 			}
-			if isShift(in) {
+			if cc := h2aCallOf(e.in, "writeQueue.shift"); cc != nil && len(cc.Args) == 1 && p.isRootParam(h2aCV{cc.Args[0], e.fr}, qIdx) {
 				nShift++
 			}
-			return true
-		})
+		}
 		// does the path know the head is DATA with payload?
 		hasPayload := false
-		p.Edges(func(cond ssa.Value, taken bool) {
-			if v, sense, ok := h2aPosTest(cond); ok && taken == sense {
-				if d, isLen := h2aLenOf(v); isLen && isHeadP(d) {
+		for _, cm := range p.cmps(-1) {
+			if v, sense, ok := p.posTest(cm); ok && sense {
+				if d, isLen := p.lenOf(v); isLen && isHeadP(x, d) {
 					hasPayload = true
 				}
 			}
-		})
-		if k, isK := rv[1].(*ssa.Const); isK && core.Render(k) == "false" {
+		}
+		if k, isK := p.strip(rv[1]).v.(*ssa.Const); isK && core.Render(k) == "false" {
 			note("takeFrom:no-quota", len(onPath) == 0 && nShift == 0, "a path that reports `nothing to send` has debited a window or removed a frame from the queue; path: "+sig)
-			return
+			continue
 		}
 		switch {
 		case !hasPayload:
 			note("takeFrom:no-payload", len(onPath) == 0 && nShift == 1, fmt.Sprintf("a frame without DATA payload must cost nothing and be shifted off the queue once (takes=%d shifts=%d); path: %s", len(onPath), nShift, sig))
 		case len(onPath) != 1:
 			note("takeFrom:payload", false, fmt.Sprintf("a DATA frame with payload leaves takeFrom after %d flow.take calls (exactly one required); path: %s", len(onPath), sig))
-		case onPath[0].whole:
+		case isWhole(x, onPath[0].amount):
 			note("takeFrom:whole", nShift == 1, fmt.Sprintf("a DATA frame that is sent whole must be shifted off the queue exactly once (shifts=%d); path: %s", nShift, sig))
 			// what is returned is the head itself
-			okRet := rv[0] == ssa.Value(head)
-			if ld, isLd := rv[0].(*ssa.UnOp); isLd && !okRet {
-				if al, isAl := ld.X.(*ssa.Alloc); isAl {
-					okRet = true
-					p.Instrs(func(in ssa.Instruction) bool {
-						if st, ok := in.(*ssa.Store); ok && st.Addr == ssa.Value(al) {
-							okRet = st.Val == ssa.Value(head) || core.Render(st.Val) == core.Render(ld)
-							if l2, isL2 := st.Val.(*ssa.UnOp); isL2 && l2.X == ssa.Value(al) {
-								okRet = true
-							}
-						}
-						return true
-					})
-				}
-			}
-			note("takeFrom:whole", okRet, "the frame returned after debiting len(p) is not the frame at the head of the queue; path: "+sig)
+			note("takeFrom:whole", isHead(x, rv[0]), "the frame returned after debiting len(p) is not the frame at the head of the queue; path: "+sig)
 		default:
 			t := onPath[0]
 			note("takeFrom:split", nShift == 0, "a split DATA frame must leave the remainder at the head of the queue (no shift); path: "+sig)
 			// stores on the path: new writeData{streamID, p[:n], false}; wd.p = p[n:]
 			okChunk, okRest, okSID, okEnd, okStream := false, false, false, false, false
-			p.Instrs(func(in ssa.Instruction) bool {
-				st, ok := in.(*ssa.Store)
+			for _, e := range p.evs {
+				st, ok := e.in.(*ssa.Store)
 				if !ok {
-					return true
+					continue
 				}
-				if base, ok := h2aFieldAddrOf(st.Addr, wdP); ok {
-					sl, isSl := st.Val.(*ssa.Slice)
-					if isHeadData(base) {
-						okRest = isSl && isHeadP(sl.X) && sl.High == nil && sl.Low != nil && h2aSame(sl.Low, t.amount)
+				addr, val := h2aCV{st.Addr, e.fr}, p.strip(h2aCV{st.Val, e.fr})
+				if base, ok := p.fieldAddr(addr, wdP); ok {
+					sl, isSl := val.v.(*ssa.Slice)
+					if isHeadData(x, base) {
+						okRest = isSl && isHeadP(x, h2aCV{sl.X, val.fr}) && sl.High == nil && sl.Low != nil && p.same(h2aCV{sl.Low, val.fr}, t.amount)
 					} else {
-						okChunk = isSl && isHeadP(sl.X) && sl.Low == nil && sl.High != nil && h2aSame(sl.High, t.amount)
+						okChunk = isSl && isHeadP(x, h2aCV{sl.X, val.fr}) && sl.Low == nil && sl.High != nil && p.same(h2aCV{sl.High, val.fr}, t.amount)
 					}
 				}
-				if base, ok := h2aFieldAddrOf(st.Addr, wdSID); ok && !isHeadData(base) {
-					b2, isSID := h2aFieldLoad(st.Val, wdSID)
-					okSID = isSID && isHeadData(b2)
+				if base, ok := p.fieldAddr(addr, wdSID); ok && !isHeadData(x, base) {
+					b2, isSID := p.fieldLoad(val, wdSID)
+					okSID = isSID && isHeadData(x, b2)
 				}
-				if base, ok := h2aFieldAddrOf(st.Addr, wdEnd); ok && !isHeadData(base) {
-					okEnd = core.Render(st.Val) == "false"
+				if base, ok := p.fieldAddr(addr, wdEnd); ok && !isHeadData(x, base) {
+					k, isK := val.v.(*ssa.Const)
+					okEnd = isK && core.Render(k) == "false"
 				}
-				if _, ok := h2aFieldAddrOf(st.Addr, fwStream); ok {
-					okStream = isHeadField(st.Val, fwStream)
+				if _, ok := p.fieldAddr(addr, fwStream); ok {
+					okStream = isHeadField(x, val, fwStream)
 				}
-				return true
-			})
-			note("takeFrom:split", okChunk, "the DATA chunk sent is not p[:n] for the n debited from the window ("+core.Render(t.amount)+"): more (or other) octets are sent than were taken; path: "+sig)
+			}
+			note("takeFrom:split", okChunk, "the DATA chunk sent is not p[:n] for the n debited from the window ("+core.Render(t.amount.v)+"): more (or other) octets are sent than were taken; path: "+sig)
 			note("takeFrom:split", okRest, "after a split the head of the queue does not keep p[n:] for the n debited: octets would be lost or sent twice; path: "+sig)
 			note("takeFrom:split", okSID && okStream, "the split DATA frame is not addressed to the stream (id and *stream) of the frame it was cut from; path: "+sig)
 			note("takeFrom:split", okEnd, "the split DATA frame may carry END_STREAM although p[n:] is still queued: octets would follow the end of the stream; path: "+sig)
 		}
-	})
-	c.Check("data-path", "takeFrom:paths-enumerated", fn.Pos(), complete && npaths > 0, fmt.Sprintf("path enumeration of takeFrom incomplete (%d paths)", npaths))
+	}
+	c.Check("data-path", "takeFrom:paths-enumerated", fn.Pos(), complete && len(paths) > 0, fmt.Sprintf("path enumeration of takeFrom incomplete (%d paths)", len(paths)))
 	var keys []string
 	for k := range res {
 		keys = append(keys, k)
@@ -366,7 +430,13 @@ func c34DataOnStreamQueue(c *core.Ctx) {
 					}
 				}
 			})
-			okS := sv != nil && !h2aIsNil(sv)
+			// a parameter of a private helper is what its call sites pass
+			okS := sv != nil && h2aEvery(c, sv, func(v ssa.Value) bool {
+				if _, isPar := core.StripConv(v).(*ssa.Parameter); isPar && len(h2aParamArgs(c, core.StripConv(v))) > 0 {
+					return false // decided by the arguments
+				}
+				return !h2aIsNil(v)
+			}, 3)
 			if okS {
 				streams = append(streams, sv)
 			}
@@ -393,7 +463,7 @@ func c34DataOnStreamQueue(c *core.Ctx) {
 			} else if _, isCopy := h2aFieldLoad(st.Val, wdSID); isCopy {
 				// split frame: id copied from the head frame, stream copied from the head message
 				for _, sv := range streams {
-					if _, isHeadStream := h2aFieldLoad(sv, fwStream); isHeadStream {
+					if h2aEvery(c, sv, func(v ssa.Value) bool { _, isHeadStream := h2aFieldLoad(v, fwStream); return isHeadStream }, 3) {
 						okID = true
 					}
 				}
@@ -418,9 +488,12 @@ func c34Fifo(c *core.Ctx) {
 	n := 0
 	for _, st := range core.FieldStores(c.P.SrcFuncs(""), sFld) {
 		name := h2aShort(st.Fn)
-		ok := name == "writeQueue.push" || name == "writeQueue.shift" || name == "writeScheduler.forgetStream"
+		who, ok := name, false
+		if core.FuncPkgRel(st.Fn) == h2aPkg {
+			who, ok = h2aOwnedBy(c, st.Fn, "writeQueue.push", "writeQueue.shift", "writeScheduler.forgetStream")
+		}
 		n++
-		c.Check("fifo", ord.key("writers:"+name), st.Store.Pos(), ok, "writeQueue.s is written in "+name+"; reviewed mutators: push (tail), shift (head), forgetStream (drop all)")
+		c.Check("fifo", ord.key("writers:"+who), st.Store.Pos(), ok, "writeQueue.s is written in "+name+"; reviewed mutators: push (tail), shift (head), forgetStream (drop all)")
 	}
 	// element stores through s (s[i] = …) outside the reviewed mutators
 	for _, fn := range c.P.SrcFuncs(h2aPkg) {
@@ -437,12 +510,12 @@ func c34Fifo(c *core.Ctx) {
 			if _, isS := h2aFieldLoad(ia.X, sFld); !isS {
 				return
 			}
-			okW := name == "writeQueue.shift" || name == "writeScheduler.forgetStream"
+			who, okW := h2aOwnedBy(c, fn, "writeQueue.shift", "writeScheduler.forgetStream")
 			zero := false
 			if k, isK := st.Val.(*ssa.Const); isK && k.Value == nil {
 				zero = true
 			}
-			c.Check("fifo", ord.key("element-writers:"+name), st.Pos(), okW && zero, "an element of writeQueue.s is overwritten in "+name+" with "+core.Render(st.Val)+"; only clearing (zero value) in shift/forgetStream is reviewed")
+			c.Check("fifo", ord.key("element-writers:"+who), st.Pos(), okW && zero, "an element of writeQueue.s is overwritten in "+name+" with "+core.Render(st.Val)+"; only clearing (zero value) in shift/forgetStream is reviewed")
 		})
 	}
 	if fn := h2aFn(c, "writeQueue.push"); fn != nil && len(fn.Params) == 2 {
@@ -580,7 +653,7 @@ func c34Fifo(c *core.Ctx) {
 			}
 			c.Check("fifo", "add:"+what+"-queue", in.Pos(), okArg && okQ, "writeScheduler.add must push its argument on ws.zero when wm.stream == nil and on streamQueue(wm.stream.id) otherwise; pushes "+core.Render(cc.Args[1])+" on "+core.Render(cc.Args[0]))
 		})
-		c.Check("fifo", "add:queues-every-frame", fn.Pos(), pushes >= 2 && core.MustPass(fn, nil, h2aIsCall("writeQueue.push")) == nil, "a path through writeScheduler.add returns without queueing the frame")
+		c.Check("fifo", "add:queues-every-frame", fn.Pos(), pushes >= 2 && core.MustPass(fn, nil, core.LiftMust(h2aIsCall("writeQueue.push"), 2)) == nil, "a path through writeScheduler.add returns without queueing the frame")
 	}
 	// streamQueue: one queue per id
 	if fn := h2aFn(c, "writeScheduler.streamQueue"); fn != nil && len(fn.Params) == 2 {
@@ -698,23 +771,35 @@ func c34SingleWriter(c *core.Ctx) {
 		if core.FuncPkgRel(fn) == "" {
 			continue
 		}
+		fn := fn
 		name := strings.TrimPrefix(core.FuncKey(fn), h2aPkg+".")
+		// within: the site belongs to one of the reviewed functions (itself, a closure
+		// that is not started as a goroutine, a new private helper only they call);
+		// who is the name the site is reported under
+		within := func(names ...string) (who string, ok bool) {
+			if core.FuncPkgRel(fn) != h2aPkg {
+				return name, false
+			}
+			return h2aOwnedBy(c, fn, names...)
+		}
 		core.Instrs(fn, func(in ssa.Instruction) {
 			switch x := in.(type) {
 			case ssa.CallInstruction:
 				cc := x.Common()
 				if cc.IsInvoke() && cc.Method == wfIface {
-					c.Check("single-writer", ord.key("invoke-writeFrame:"+name), in.Pos(), name == "serverConn.writeFrames", "writeFramer.writeFrame is invoked in "+name+"; frames may be written to the connection only by the writeFrames goroutine")
+					who, ok := within("serverConn.writeFrames")
+					c.Check("single-writer", ord.key("invoke-writeFrame:"+who), in.Pos(), ok, "writeFramer.writeFrame is invoked in "+name+"; frames may be written to the connection only by the writeFrames goroutine")
 				}
 				if core.CallIs(cc, h2aPkg+".serverConn.writeFrames") {
 					_, isGo := in.(*ssa.Go)
 					if isGo {
 						goStarts++
 					}
-					c.Check("single-writer", ord.key("go:serverConn.writeFrames"), in.Pos(), isGo && name == "serverConn.serve" && goStarts == 1, "serverConn.writeFrames is started/called in "+name+"; exactly one `go sc.writeFrames()` in serve is reviewed (a second writer would interleave frames)")
+					_, inServe := within("serverConn.serve")
+					c.Check("single-writer", ord.key("go:serverConn.writeFrames"), in.Pos(), isGo && inServe && goStarts == 1, "serverConn.writeFrames is started/called in "+name+"; exactly one `go sc.writeFrames()` in serve is reviewed (a second writer would interleave frames)")
 				}
 				if core.CallIs(cc, h2aPkg+".Framer.WriteData", h2aPkg+".Framer.WriteDataPadded") {
-					ok := name == "writeData.writeFrame" || name == "Framer.WriteData"
+					who, ok := within("writeData.writeFrame", "Framer.WriteData")
 					// a DATA frame with a nil payload carries no octets: it consumes no flow-control window
 					if !ok && len(cc.Args) >= 4 {
 						if k, isK := cc.Args[3].(*ssa.Const); isK && k.Value == nil {
@@ -724,27 +809,35 @@ func c34SingleWriter(c *core.Ctx) {
 					if core.FuncPkgRel(fn) != h2aPkg {
 						return // other packages have their own framers of other connections
 					}
-					c.Check("single-writer", ord.key("data-writer:"+name), in.Pos(), ok, "a DATA frame is written by "+name+" outside writeData.writeFrame: it bypasses the scheduler's window accounting")
+					c.Check("single-writer", ord.key("data-writer:"+who), in.Pos(), ok, "a DATA frame is written by "+name+" outside writeData.writeFrame: it bypasses the scheduler's window accounting")
 				}
 			case *ssa.Send:
 				if _, ok := h2aFieldLoad(x.Chan, wfCh); ok {
-					c.Check("single-writer", ord.key("send-writeFrameCh:"+name), in.Pos(), name == "serverConn.startFrameWrite", "a frame is handed to the writer goroutine in "+name+"; only startFrameWrite may do so")
+					who, ok := within("serverConn.startFrameWrite")
+					c.Check("single-writer", ord.key("send-writeFrameCh:"+who), in.Pos(), ok, "a frame is handed to the writer goroutine in "+name+"; only startFrameWrite may do so")
 				}
 			case *ssa.Select:
 				for _, s := range x.States {
 					if _, ok := h2aFieldLoad(s.Chan, wfCh); ok {
-						okU := (s.Send == nil && name == "serverConn.writeFrames") || (s.Send != nil && name == "serverConn.startFrameWrite")
-						c.Check("single-writer", ord.key("select-writeFrameCh:"+name), in.Pos(), okU, "writeFrameCh is used in a select in "+name+"; reviewed: receive in writeFrames, send in startFrameWrite")
+						who, okU := within("serverConn.writeFrames")
+						if s.Send != nil {
+							who, okU = within("serverConn.startFrameWrite")
+						}
+						c.Check("single-writer", ord.key("select-writeFrameCh:"+who), in.Pos(), okU, "writeFrameCh is used in a select in "+name+"; reviewed: receive in writeFrames, send in startFrameWrite")
 					}
 					if _, ok := h2aFieldLoad(s.Chan, wrCh); ok {
-						okU := (s.Send != nil && name == "serverConn.writeFrames") || (s.Send == nil && name == "serverConn.serve")
-						c.Check("single-writer", ord.key("select-wroteFrameCh:"+name), in.Pos(), okU, "wroteFrameCh is used in "+name+"; reviewed: send in writeFrames, receive in serve")
+						who, okU := within("serverConn.serve")
+						if s.Send != nil {
+							who, okU = within("serverConn.writeFrames")
+						}
+						c.Check("single-writer", ord.key("select-wroteFrameCh:"+who), in.Pos(), okU, "wroteFrameCh is used in "+name+"; reviewed: send in writeFrames, receive in serve")
 					}
 				}
 			case *ssa.UnOp:
 				if x.Op == token.ARROW {
 					if _, ok := h2aFieldLoad(x.X, wfCh); ok {
-						c.Check("single-writer", ord.key("recv-writeFrameCh:"+name), in.Pos(), name == "serverConn.writeFrames", "writeFrameCh is received from in "+name)
+						who, ok := within("serverConn.writeFrames")
+						c.Check("single-writer", ord.key("recv-writeFrameCh:"+who), in.Pos(), ok, "writeFrameCh is received from in "+name)
 					}
 				}
 			}
@@ -778,36 +871,88 @@ func c34SingleWriter(c *core.Ctx) {
 	for _, st := range core.FieldStores(c.P.SrcFuncs(h2aPkg), wFlag) {
 		name := h2aShort(st.Fn)
 		v := core.Render(st.Store.Val)
-		ok := (name == "serverConn.startFrameWrite" && v == "true") || (name == "serverConn.wroteFrame" && v == "false")
-		c.Check("single-writer", ord.key("writingFrame:"+name+"="+v), st.Store.Pos(), ok, "sc.writingFrame is set to "+v+" in "+name+"; reviewed: true in startFrameWrite, false in wroteFrame (after the writer goroutine reported back)")
+		who, ok := name, false
+		switch v {
+		case "true":
+			who, ok = h2aOwnedBy(c, st.Fn, "serverConn.startFrameWrite")
+		case "false":
+			who, ok = h2aOwnedBy(c, st.Fn, "serverConn.wroteFrame")
+		}
+		c.Check("single-writer", ord.key("writingFrame:"+who+"="+v), st.Store.Pos(), ok, "sc.writingFrame is set to "+v+" in "+name+"; reviewed: true in startFrameWrite, false in wroteFrame (after the writer goroutine reported back)")
 	}
 	flagClear := func(g core.Guard) bool { // writingFrame known false
 		base, ok := h2aFieldLoad(g.Cond, wFlag)
 		return ok && base != nil && !g.Pol
 	}
+	// startFrameWrite, over its paths with private helpers spliced in: every path
+	// that hands a frame to the writer has found the flag clear, has set it, and
+	// hands over the frame it was given
 	if fn := h2aFn(c, "serverConn.startFrameWrite"); fn != nil {
-		var send ssa.Instruction
-		var setTrue *ssa.Store
-		core.Instrs(fn, func(in ssa.Instruction) {
-			if s, ok := in.(*ssa.Send); ok {
-				if _, isCh := h2aFieldLoad(s.Chan, wfCh); isCh {
-					send = in
+		paths, complete := h2aPathsOf(c, fn, 5000)
+		nSend := 0
+		okGuard, okBusy, okHand := complete, complete, complete && len(fn.Params) == 2
+		var pos token.Pos
+		handed := ""
+		for _, p := range paths {
+			for i, e := range p.evs {
+				var sent h2aCV
+				switch x := e.in.(type) {
+				case *ssa.Send:
+					if _, isCh := p.fieldLoad(h2aCV{x.Chan, e.fr}, wfCh); !isCh {
+						continue
+					}
+					sent = h2aCV{x.X, e.fr}
+				case *ssa.Select:
+					found := false
+					for _, st := range x.States {
+						if _, isCh := p.fieldLoad(h2aCV{st.Chan, e.fr}, wfCh); isCh && st.Send != nil {
+							sent, found = h2aCV{st.Send, e.fr}, true
+						}
+					}
+					if !found {
+						continue
+					}
+				default:
+					continue
+				}
+				nSend++
+				pos = e.in.Pos()
+				clear, busy := false, false
+				for _, f := range p.facts {
+					if f.at >= i {
+						continue
+					}
+					if v, pol := p.boolFact(f); !pol {
+						if _, isFlag := p.fieldLoad(v, wFlag); isFlag {
+							clear = true
+						}
+					}
+				}
+				for j := 0; j < i; j++ {
+					if st, isSt := p.evs[j].in.(*ssa.Store); isSt {
+						if _, isF := p.fieldAddr(h2aCV{st.Addr, p.evs[j].fr}, wFlag); isF {
+							k, isK := p.strip(h2aCV{st.Val, p.evs[j].fr}).v.(*ssa.Const)
+							busy = isK && core.Render(k) == "true"
+						}
+					}
+				}
+				if !clear {
+					okGuard = false
+				}
+				if !busy {
+					okBusy = false
+				}
+				if len(fn.Params) == 2 && !p.isRootParam(p.rootOf(p.valueOf(sent), nil), 1) {
+					okHand, handed = false, core.Render(p.strip(sent).v)
 				}
 			}
-			if s, ok := in.(*ssa.Store); ok {
-				if _, isF := h2aFieldAddrOf(s.Addr, wFlag); isF && core.Render(s.Val) == "true" {
-					setTrue = s
-				}
-			}
-		})
-		if send == nil {
+		}
+		if nSend == 0 {
 			c.Check("single-writer", "startFrameWrite:hands-over", fn.Pos(), false, "startFrameWrite no longer sends the frame on writeFrameCh")
 		} else {
-			c.Check("single-writer", "startFrameWrite:guard", send.Pos(), core.HasGuard(send.Block(), flagClear), "the frame is handed to the writer without having established !sc.writingFrame: two frames could be in flight and be written in either order")
-			c.Check("single-writer", "startFrameWrite:marks-busy", send.Pos(), setTrue != nil && core.Dominates(setTrue, send), "sc.writingFrame is not set before the frame is handed to the writer")
-			// the frame handed over is the argument
-			s := send.(*ssa.Send)
-			c.Check("single-writer", "startFrameWrite:hands-over", send.Pos(), len(fn.Params) == 2 && h2aRoot(s.X) == ssa.Value(fn.Params[1]), "startFrameWrite hands "+core.Render(s.X)+" to the writer, not the frame it was given")
+			c.Check("single-writer", "startFrameWrite:guard", pos, okGuard, "the frame is handed to the writer without having established !sc.writingFrame: two frames could be in flight and be written in either order")
+			c.Check("single-writer", "startFrameWrite:marks-busy", pos, okBusy, "sc.writingFrame is not set before the frame is handed to the writer")
+			c.Check("single-writer", "startFrameWrite:hands-over", pos, okHand, "startFrameWrite hands "+handed+" to the writer, not the frame it was given")
 		}
 	}
 	if fn := h2aFn(c, "serverConn.wroteFrame"); fn != nil {
@@ -826,9 +971,10 @@ func c34SingleWriter(c *core.Ctx) {
 	h2aCallerCensus(c, "single-writer", "writeScheduler.add", "serverConn.writeFrame")
 	if fn := h2aFn(c, "serverConn.scheduleFrameWrite"); fn != nil {
 		ordS := h2aOrd{}
-		core.Instrs(fn, func(in ssa.Instruction) {
+		// also in a private helper of scheduleFrameWrite: the guard then holds at its call site
+		h2aRegionInstrs(c, fn, func(g *ssa.Function, in ssa.Instruction) {
 			if cc := h2aCallOf(in, "serverConn.startFrameWrite"); cc != nil {
-				c.Check("single-writer", ordS.key("scheduleFrameWrite:start-when-idle"), in.Pos(), core.HasGuard(in.Block(), flagClear), "scheduleFrameWrite starts a frame write without having established !sc.writingFrame")
+				c.Check("single-writer", ordS.key("scheduleFrameWrite:start-when-idle"), in.Pos(), c.P.HasGuardCtx(in.Block(), flagClear), "scheduleFrameWrite starts a frame write without having established !sc.writingFrame")
 			}
 		})
 		// the frame taken from the scheduler is started on every path
@@ -890,64 +1036,83 @@ func c34StreamState(c *core.Ctx) {
 		}
 		return kk, (b.Op == token.EQL) == g.Pol, true
 	}
+	// startFrameWrite: every path (private helpers spliced in) that reaches the send
+	// has established that the frame has no stream, or that the stream's state is
+	// neither HalfClosedLocal nor Closed - as `!= K` tests, switch cases not taken,
+	// or `== K'` for another state
 	if fn := h2aFn(c, "serverConn.startFrameWrite"); fn != nil {
-		var send ssa.Instruction
-		core.Instrs(fn, func(in ssa.Instruction) {
-			if s, ok := in.(*ssa.Send); ok {
-				if _, isCh := h2aFieldLoad(s.Chan, wfCh); isCh {
-					send = in
+		paths, complete := h2aPathsOf(c, fn, 5000)
+		nSend, okAll := 0, complete
+		var pos token.Pos
+		why := ""
+		for _, p := range paths {
+			for i, e := range p.evs {
+				isSend := false
+				switch x := e.in.(type) {
+				case *ssa.Send:
+					_, isSend = p.fieldLoad(h2aCV{x.Chan, e.fr}, wfCh)
+				case *ssa.Select:
+					for _, st := range x.States {
+						if _, isCh := p.fieldLoad(h2aCV{st.Chan, e.fr}, wfCh); isCh && st.Send != nil {
+							isSend = true
+						}
+					}
 				}
-			}
-		})
-		if send != nil {
-			edgeOK := func(gs []core.Guard) bool {
+				if !isSend {
+					continue
+				}
+				nSend++
+				pos = e.in.Pos()
 				noStream, exHCL, exClosed := false, false, false
-				for _, g := range gs {
-					if b, isBin := g.Cond.(*ssa.BinOp); isBin && h2aIsNil(b.Y) {
-						if _, isStr := h2aFieldLoad(b.X, fwStream); isStr && (b.Op == token.EQL) == g.Pol {
+				for _, cm := range p.cmps(i) {
+					if cm.op != token.EQL && cm.op != token.NEQ {
+						continue
+					}
+					for _, xy := range [][2]h2aCV{{cm.x, cm.y}, {cm.y, cm.x}} {
+						if _, isStr := p.fieldLoad(xy[0], fwStream); isStr && p.isNil(xy[1]) && cm.op == token.EQL {
 							noStream = true
 						}
-					}
-					if k, eq, ok := stateTest(g); ok {
-						switch {
-						case eq && k != hcl && k != closed:
-							exHCL, exClosed = true, true
-						case !eq && k == hcl:
-							exHCL = true
-						case !eq && k == closed:
-							exClosed = true
+						if _, isState := p.fieldLoad(xy[0], stateFld); isState {
+							if k, isK := p.intOf(xy[1]); isK {
+								switch {
+								case cm.op == token.EQL && k != hcl && k != closed:
+									exHCL, exClosed = true, true
+								case cm.op == token.NEQ && k == hcl:
+									exHCL = true
+								case cm.op == token.NEQ && k == closed:
+									exClosed = true
+								}
+							}
 						}
 					}
 				}
-				return noStream || (exHCL && exClosed)
-			}
-			b := send.Block()
-			ok := true
-			if len(b.Preds) <= 1 {
-				ok = edgeOK(core.GuardsAt(b))
-			} else if !edgeOK(core.GuardsAt(b)) {
-				for _, p := range b.Preds {
-					if !edgeOK(core.GuardsOnEdge(p, b)) {
-						ok = false
-					}
+				if !(noStream || (exHCL && exClosed)) && okAll {
+					okAll, why = false, " (path: "+h2aFactSig(p)+")"
 				}
 			}
-			c.Check("stream-state", "startFrameWrite:not-after-end", send.Pos(), ok, "a frame can be handed to the writer for a stream whose state was not established to be neither HalfClosedLocal (we sent END_STREAM) nor Closed (reset): something would be sent after the stream ended")
+		}
+		if nSend > 0 {
+			c.Check("stream-state", "startFrameWrite:not-after-end", pos, okAll, "a frame can be handed to the writer for a stream whose state was not established to be neither HalfClosedLocal (we sent END_STREAM) nor Closed (reset): something would be sent after the stream ended"+why)
 		} else {
 			c.Check("stream-state", "startFrameWrite:not-after-end", fn.Pos(), false, "startFrameWrite no longer sends on writeFrameCh")
 		}
 	}
 	if fn := h2aFn(c, "serverConn.closeStream"); fn != nil && len(fn.Params) >= 2 {
 		idFld := h2aField(c, "stream.id")
+		// the stream being closed: the parameter itself or, in a private helper of
+		// closeStream, a parameter that receives it at every call site
+		isSt := func(v ssa.Value) bool {
+			return h2aEvery(c, v, func(x ssa.Value) bool { return core.StripConv(x) == ssa.Value(fn.Params[1]) }, 3)
+		}
 		isForget := func(in ssa.Instruction) bool {
 			cc := h2aCallOf(in, "writeScheduler.forgetStream")
 			if cc == nil || len(cc.Args) != 2 {
 				return false
 			}
 			b, ok := h2aFieldLoad(cc.Args[1], idFld)
-			return ok && b == ssa.Value(fn.Params[1])
+			return ok && isSt(b)
 		}
-		c.Check("stream-state", "closeStream:forgets-queue", fn.Pos(), core.MustPass(fn, nil, isForget) == nil, "a path through closeStream returns without writeSched.forgetStream(st.id): frames queued for a closed/reset stream stay schedulable")
+		c.Check("stream-state", "closeStream:forgets-queue", fn.Pos(), core.MustPass(fn, nil, core.LiftMust(isForget, 2)) == nil, "a path through closeStream returns without writeSched.forgetStream(st.id): frames queued for a closed/reset stream stay schedulable")
 		isClosedStore := func(in ssa.Instruction) bool {
 			st, ok := in.(*ssa.Store)
 			if !ok {
@@ -955,9 +1120,9 @@ func c34StreamState(c *core.Ctx) {
 			}
 			b, isState := h2aFieldAddrOf(st.Addr, stateFld)
 			k, isK := h2aInt(st.Val)
-			return isState && b == ssa.Value(fn.Params[1]) && isK && k == closed
+			return isState && isSt(b) && isK && k == closed
 		}
-		c.Check("stream-state", "closeStream:marks-closed", fn.Pos(), core.MustPass(fn, nil, isClosedStore) == nil, "a path through closeStream returns without setting st.state = stateClosed: startFrameWrite's test could not see the stream is gone")
+		c.Check("stream-state", "closeStream:marks-closed", fn.Pos(), core.MustPass(fn, nil, core.LiftMust(isClosedStore, 2)) == nil, "a path through closeStream returns without setting st.state = stateClosed: startFrameWrite's test could not see the stream is gone")
 	}
 	if fn := h2aFn(c, "serverConn.wroteFrame"); fn != nil {
 		// under endsStream(...) == true: Open -> resetStream, HalfClosedRemote -> closeStream
@@ -1033,25 +1198,25 @@ func c34PeerLimits(c *core.Ctx, fl *h2aFlows) {
 	ord := h2aOrd{}
 	for _, st := range core.FieldStores(c.P.SrcFuncs(h2aPkg), mfs) {
 		name := h2aShort(st.Fn)
+		if who, ok := h2aOwnedBy(c, st.Fn, "serverConn.processSetting", "Server.ServeConn"); ok {
+			name = who
+		}
 		switch name {
 		case "serverConn.processSetting":
 			_, isVal := h2aFieldLoad(st.Store.Val, setVal)
-			okID := core.HasGuard(st.Store.Block(), func(g core.Guard) bool {
-				b, ok := g.Cond.(*ssa.BinOp)
-				if !ok || b.Op != token.EQL || !g.Pol {
-					return false
-				}
-				_, isID := h2aFieldLoad(b.X, setID)
-				k, isK := h2aInt(b.Y)
-				return isID && isK && k == sMFS
+			okID := c.P.HasGuardCtx(st.Store.Block(), func(g core.Guard) bool {
+				// ID == SettingMaxFrameSize in any spelling (switch case, ==, !(... != ...), mirrored)
+				return g.CmpIs(token.EQL,
+					func(v ssa.Value) bool { _, isID := h2aFieldLoad(v, setID); return isID },
+					func(v ssa.Value) bool { k, isK := h2aInt(v); return isK && k == sMFS })
 			})
-			okValid := core.HasGuard(st.Store.Block(), func(g core.Guard) bool {
-				b, ok := g.Cond.(*ssa.BinOp)
-				if !ok || !h2aIsNil(b.Y) || (b.Op == token.NEQ) == g.Pol {
-					return false
-				}
-				call, isCall := b.X.(*ssa.Call)
-				return isCall && core.CallIs(&call.Call, h2aPkg+".Setting.Valid")
+			okValid := c.P.HasGuardCtx(st.Store.Block(), func(g core.Guard) bool {
+				// Valid() == nil established
+				return g.CmpIs(token.EQL,
+					func(v ssa.Value) bool {
+						call, isCall := v.(*ssa.Call)
+						return isCall && core.CallIs(&call.Call, h2aPkg+".Setting.Valid")
+					}, h2aIsNil)
 			})
 			c.Check("peer-limits", ord.key("processSetting:max-frame-size"), st.Store.Pos(), isVal && okID && okValid,
 				fmt.Sprintf("ws.maxFrameSize is set from %s; it must be the Val of a setting whose ID == SettingMaxFrameSize and that passed Valid() (value=%v id=%v valid=%v)", core.Render(st.Store.Val), isVal, okID, okValid))
